@@ -74,8 +74,16 @@ def run(ctx):
             r.ob(rv.q, txt, True, "escaper call", rv.loc(i), nontrivial=False)
         elif nm == "CopyValueTo":
             args = rv.call_args(i)
-            ok = len(args) == 3 and any(rv.nodes[x].get("n") == "EscapeHTMLSpecialChars" or "EscapeHTMLSpecialChars" in str(rv.nodes[x].get("cands", ""))
-                                        for x in rv.walk(args[2]))
+            def names_escaper(root):
+                return any(rv.nodes[x].get("n") == "EscapeHTMLSpecialChars" or "EscapeHTMLSpecialChars" in str(rv.nodes[x].get("cands", "")) for x in rv.walk(root))
+            ok = len(args) == 3 and names_escaper(args[2])
+            if len(args) == 3 and not ok:
+                # a local function pointer: every value it is ever given must be the escaper
+                an = rv.nodes[rv.strip_casts(args[2])]
+                if an["k"] == "DeclRefExpr" and an.get("dk") == "var":
+                    inits = [d["init"] for s_ in astq.nodes_of(rv, "DeclStmt") for d in rv.nodes[s_]["decls"] if d.get("d") == an.get("d") and d.get("init", -1) >= 0]
+                    assigns = [rv.nodes[x]["ch"][1] for x in astq.nodes_of(rv, "BinaryOperator") if rv.nodes[x]["op"] == "=" and rv.nodes[rv.strip(rv.nodes[x]["ch"][0])].get("d") == an.get("d")]
+                    ok = bool(inits) and all(names_escaper(x) for x in inits + assigns)
             r.ob(rv.q, txt, ok, "CopyValueTo must receive the escaper as its string function", rv.loc(i))
         else:
             r.ob(rv.q, txt, False, "stream write of unrecognised kind in the {var:} renderer", rv.loc(i))
